@@ -313,3 +313,99 @@ Section StdCfb.
     if length iv =? bs then Some (std_cfb_loop (length msg) dec iv (repeat 0%N bs) bs msg)
     else None.
 End StdCfb.
+
+(* ---------- the factory NewCrypt(name, key, iv) (cipher.go) and the constructors it calls.
+   Which bytes of the supplied key / iv an instance uses:
+     "aes-128" key[:16]  "aes-192" key[:24]  "sm4" key[:16]  "3des" key[:24]  "xtea" key[:16]
+     "twofish" the whole key (must be 16, 24 or 32 bytes)   "salsa20" key[:32], nonce = iv[:8]
+     "none" nothing      any other name: AES with key[:32]
+   A key shorter than the slice bound makes key[:n] panic (the model takes cap(key) = len(key));
+   a bad twofish key length makes the constructor log.Panicf; both are None here.  The iv is
+   kept whole (by reference); a block-cipher instance whose iv is shorter than a block is
+   created all right and panics in its first Encrypt / Decrypt (block.Encrypt(tbl, iv)).
+   The block ciphers and the salsa20 keystream are oracles (BC, KS). ---------- *)
+
+Inductive cid : Type := AES | SM4 | TWOFISH | TDES | XTEA.
+Definition cid_bs (c : cid) : nat := match c with TDES | XTEA => 8 | _ => 16 end.
+
+(* the names as ASCII bytes (Properties.v restates the table with string literals) *)
+Definition name_aes128 : list N := [97; 101; 115; 45; 49; 50; 56]%N.    (* "aes-128" *)
+Definition name_aes192 : list N := [97; 101; 115; 45; 49; 57; 50]%N.    (* "aes-192" *)
+Definition name_sm4 : list N := [115; 109; 52]%N.                       (* "sm4" *)
+Definition name_twofish : list N := [116; 119; 111; 102; 105; 115; 104]%N. (* "twofish" *)
+Definition name_3des : list N := [51; 100; 101; 115]%N.                 (* "3des" *)
+Definition name_xtea : list N := [120; 116; 101; 97]%N.                 (* "xtea" *)
+Definition name_salsa20 : list N := [115; 97; 108; 115; 97; 50; 48]%N.  (* "salsa20" *)
+Definition name_none : list N := [110; 111; 110; 101]%N.                (* "none" *)
+Fixpoint bytes_eqb (a b : list N) : bool :=
+  match a, b with
+  | [], [] => true
+  | x :: a', y :: b' => N.eqb x y && bytes_eqb a' b'
+  | _, _ => false
+  end.
+
+(* klen = Some n: key[:n];  None: the whole key, length 16 / 24 / 32 *)
+Inductive fkind : Type := FBlock (c : cid) (klen : option nat) | FStream | FNone.
+
+Definition factory_kind (name : list N) : fkind :=
+  if bytes_eqb name name_aes128 then FBlock AES (Some 16)
+  else if bytes_eqb name name_aes192 then FBlock AES (Some 24)
+  else if bytes_eqb name name_sm4 then FBlock SM4 (Some 16)
+  else if bytes_eqb name name_twofish then FBlock TWOFISH None
+  else if bytes_eqb name name_3des then FBlock TDES (Some 24)
+  else if bytes_eqb name name_xtea then FBlock XTEA (Some 16)
+  else if bytes_eqb name name_salsa20 then FStream
+  else if bytes_eqb name name_none then FNone
+  else FBlock AES (Some 32).
+
+Definition used_key (klen : option nat) (key : list N) : option (list N) :=
+  match klen with
+  | Some n => if n <=? List.length key then Some (firstn n key) else None
+  | None => if (List.length key =? 16) || (List.length key =? 24) || (List.length key =? 32) then Some key else None
+  end.
+
+Inductive inst : Type :=
+| IBlock (c : cid) (k iv : list N) (cr : cryptor)     (* encbuf [bs]byte, decbuf [2*bs]byte: zeroed *)
+| IStream (k nonce : list N)                          (* key [32]byte, nonce [8]byte (copy pads with 0) *)
+| INone.
+
+Definition new_crypt (name key iv : list N) : option inst :=
+  match factory_kind name with
+  | FBlock c klen =>
+      match used_key klen key with
+      | Some k => Some (IBlock c k iv (mkcr (repeat 0%N (cid_bs c)) (repeat 0%N (2 * cid_bs c))))
+      | None => None
+      end
+  | FStream => if 32 <=? List.length key then Some (IStream (firstn 32 key) (firstn 8 (iv ++ repeat 0%N 8))) else None
+  | FNone => Some INone
+  end.
+
+Definition op_msg (o : op) : list N := match o with Enc m => m | Dec m => m end.
+
+Section Factory.
+  Variable BC : cid -> list N -> list N -> list N.   (* cipher, key, block |-> encrypted block *)
+  Variable KS : list N -> list N -> nat -> N.        (* salsa20: key, nonce, position |-> keystream byte *)
+
+  Definition istep (i : inst) (o : op) : option (list N * inst) :=
+    match i with
+    | IBlock c k iv cr =>
+        match cstep (cid_bs c) (BC c k) iv cr o with
+        | Some (out, cr') => Some (out, IBlock c k iv cr')
+        | None => None
+        end
+    | IStream k nonce => Some (stream_encrypt (KS k nonce) (op_msg o), i)
+    | INone => Some (op_msg o, i)
+    end.
+
+  Fixpoint irun (i : inst) (ops : list op) : option (list (list N) * inst) :=
+    match ops with
+    | [] => Some ([], i)
+    | o :: r => match istep i o with
+                | Some (out, i') => match irun i' r with
+                                    | Some (outs, i'') => Some (out :: outs, i'')
+                                    | None => None
+                                    end
+                | None => None
+                end
+    end.
+End Factory.
